@@ -29,6 +29,8 @@ Model-free oracle on the observed log (property statement only):
     re-run without the redundant calls gives the same log         -> `redundant-call-not-identity`;
   * from_iterable takes the next item only when every emit-awaitable handed out is
     done                                                          -> `take-before-downstream-done`;
+    a polling source begins its next cycle only then             -> `poll-before-downstream-done`
+    (the source-side half of C03's backpressure clause; `./check C03` runs this family too);
     a run that exhausts the iterable undisturbed emitted exactly its items -> `iterable-not-exact`.
 """
 import asyncio
@@ -289,6 +291,10 @@ def oracle(case, log):
             if in_cycle:
                 return ("cycle-overlap", "polling cycle begins at t=%s while another is in progress (event %d)" % (ev["t"], i))
             in_cycle.add(ev["l"])
+            if pending:
+                return ("poll-before-downstream-done",
+                        "polling cycle begins at t=%s while %d emit-awaitable(s) handed out by an earlier cycle are still pending: the source "
+                        "reads on without waiting for its consumers (event %d)" % (ev["t"], pending, i))
             if last_ctl != "start":
                 return ("cycle-after-stop", "polling cycle begins at t=%s although the last control call is %s (event %d)"
                         % (ev["t"], last_ctl, i))
